@@ -469,6 +469,10 @@ func newObjectCache(pkgs []*packages.Package) *objectCache {
 // get converts a Go object into a Wire structure. It may return a *Provider, an
 // *IfaceBinding, a *ProviderSet, a *Value, or a []*Field.
 func (oc *objectCache) get(obj types.Object) (val interface{}, errs []error) {
+	if obj.Pkg() == nil {
+		// Universe-scope objects such as nil have no package.
+		return nil, []error{fmt.Errorf("%v is not a provider or a provider set", obj)}
+	}
 	ref := objRef{
 		importPath: obj.Pkg().Path(),
 		name:       obj.Name(),
